@@ -123,6 +123,8 @@ def replay_main(build):
                 okay = bool(eval_clause(expr, ns, old_env))
                 print('  clause %s: %s -> %s' % (label, expr, okay))
                 verdict = not okay
+        elif 'custom' in setup and setup.get('custom_first'):
+            verdict = bool(setup['custom'](outcome, result, exc))
         elif kind == 'noraise':
             cls = ob.split('.', 1)[1]
             verdict = (outcome == 'raise' and type(exc).__name__ == cls)
